@@ -27,7 +27,15 @@ def _rule(rec, clause):
             f"sys.exit(replay_rule({rec['id']!r}, json.loads({json.dumps(json.dumps(model, default=str))})))\n")
 
 
+def _fold_settings(rec, clause):
+    name = rec["id"].split(".")[2].replace("Torch", "", 1)
+    model = (clause.get("model") or {}).get("inputs", {})
+    return ("import sys, json\nfrom native.replay_lib import replay_fold_settings\n"
+            f"sys.exit(replay_fold_settings({name!r}, json.loads({json.dumps(json.dumps(model, default=str))})))\n")
+
+
 GENERATORS = [
+    (re.compile(r"^C02\.fold_settings\."), _fold_settings),
     (re.compile(r"^C(03|04|05|07)\.rule\."), _rule),
     (re.compile(r"^C05\.Scope\.__iter__"), _scope_iter),
     (re.compile(r"^C(14|05)\.(sym|rule|kernel)\.(?!TensorParameter|ReferenceParameter|mixing_weight_factory|TorchMatMul|TorchFlatten)"), _param_node),
